@@ -6,15 +6,15 @@ Cats == <<
   [parent |-> [r |-> "", a |-> "r"], order |-> <<>>,
    opts |-> <<[defer |-> FALSE, recover |-> TRUE, dry |-> FALSE]>>,
    fns |-> [
-     c1 |-> [kind |-> "ctor", scope |-> "r", exp |-> FALSE, cb |-> FALSE, dur |-> 1, inv |-> "", nest |-> <<>>,
+     c1 |-> [kind |-> "ctor", scope |-> "r", exp |-> FALSE, cb |-> FALSE, dur |-> 1, inv |-> "", nilres |-> FALSE, nest |-> <<>>,
              ps |-> <<>>, rs |-> <<[ks |-> <<"T0">>, m |-> "one", n |-> 0]>>],
-     c2 |-> [kind |-> "ctor", scope |-> "a", exp |-> FALSE, cb |-> TRUE, dur |-> 2, inv |-> "", nest |-> <<>>,
+     c2 |-> [kind |-> "ctor", scope |-> "a", exp |-> FALSE, cb |-> TRUE, dur |-> 2, inv |-> "", nilres |-> FALSE, nest |-> <<>>,
              ps |-> <<[k |-> "T0", m |-> "req", op |-> <<>>]>>,
              rs |-> <<[ks |-> <<"T1">>, m |-> "one", n |-> 0], [ks |-> <<"T2@g">>, m |-> "grp", n |-> 0]>>],
-     d1 |-> [kind |-> "dec", scope |-> "a", exp |-> FALSE, cb |-> FALSE, dur |-> 4, inv |-> "", nest |-> <<>>,
+     d1 |-> [kind |-> "dec", scope |-> "a", exp |-> FALSE, cb |-> FALSE, dur |-> 4, inv |-> "", nilres |-> FALSE, nest |-> <<>>,
              ps |-> <<[k |-> "T0", m |-> "req", op |-> <<>>]>>,
              rs |-> <<[ks |-> <<"T0">>, m |-> "one", n |-> 0]>>],
-     i1 |-> [kind |-> "inv", scope |-> "", exp |-> FALSE, cb |-> FALSE, dur |-> 0, inv |-> "", nest |-> <<>>,
+     i1 |-> [kind |-> "inv", scope |-> "", exp |-> FALSE, cb |-> FALSE, dur |-> 0, inv |-> "", nilres |-> FALSE, nest |-> <<>>,
              ps |-> <<[k |-> "T1", m |-> "opt", op |-> <<1>>], [k |-> "T2@g", m |-> "grp", op |-> <<1>>],
                       [k |-> "T0", m |-> "req", op |-> <<>>]>>,
              rs |-> <<>>]]]
